@@ -25,12 +25,15 @@ type oq struct {
 
 var oracleQ []oq
 
-const oracleMax = 6000
+const oracleMax = 14000
+
+var oracleKindCount = map[string]int{}
 
 func oracleQueue(kind string, p s2.Point, r s2.Rect, rep func() map[string]interface{}) {
-	if len(oracleQ) >= oracleMax || r.IsEmpty() {
+	if len(oracleQ) >= oracleMax || r.IsEmpty() || oracleKindCount[kind] >= 2500 {
 		return
 	}
+	oracleKindCount[kind]++
 	h := func(f float64) string { return fmt.Sprintf("%x", f) }
 	oracleQ = append(oracleQ, oq{kind, [3]string{h(p.X), h(p.Y), h(p.Z)}, [4]string{h(r.Lat.Lo), h(r.Lat.Hi), h(r.Lng.Lo), h(r.Lng.Hi)}, rep})
 }
